@@ -21,6 +21,7 @@ The semantic table (what each primitive means) is coq/Gen/PyRt.v.
 import ast
 import hashlib
 import os
+import re
 
 KEYWORDS = {"end", "in", "at", "as", "fix", "fun", "if", "let", "match", "return", "then", "with", "else", "forall",
             "exists", "Type", "Set", "Prop", "cofix", "for", "where", "using", "struct", "mod", "left", "right", "fst", "snd",
@@ -1783,7 +1784,7 @@ class Skel:
             # captures, named by its source text
             own = {a_.arg for a_ in s.args.args} | {n.id for n in ast.walk(s) if isinstance(n, ast.Name) and isinstance(n.ctx, ast.Store)}
             free = sorted({n.id for n in ast.walk(s) if isinstance(n, ast.Name) and isinstance(n.ctx, ast.Load) and n.id in env and n.id not in own})
-            text = " ".join(ast.unparse(s).split()).replace('"', "'")
+            text = re.sub(r"\n\s*", " ", ast.unparse(s)).replace('"', "'")     # (line breaks only: blanks inside literals are kept)
             env2 = dict(env)
             env2[s.name] = "V"
             return '%s <<- call oracle "def:%s" [%s] ;;\n  %s' % (cname(s.name), text, "; ".join(self.toV(cname(n), env[n]) for n in free), self.block(rest, env2, k, brk))
